@@ -1234,7 +1234,8 @@ func validCloseCode(code int) bool {
 		return true //       | Internal Server | hybi@ietf.org | RFC 6455  |
 		//     |            | Error           |               |           |
 	case 1015:
-		return true //  | TLS handshake   | hybi@ietf.org | RFC 6455
+		return false //  | TLS handshake   | hybi@ietf.org | RFC 6455
+		// (like 1005 and 1006, must not be set in a close frame)
 	default:
 	}
 	// IANA registration policy and should be granted in the range 3000-3999.
